@@ -11,6 +11,7 @@ mod dirs;
 mod layout;
 mod project;
 mod render;
+mod replay;
 mod report;
 mod total;
 mod walk;
@@ -162,6 +163,17 @@ fn main() {
             compose::record(&a(2), &a(3), a(4).parse().unwrap_or(0), &mut w, &mut t, &mut out);
             w.finish();
             t.finish();
+        }
+        "replay-source" => {
+            // replay-source <pid> <source file> <trace out>
+            let text = std::fs::read_to_string(a(3)).expect("read");
+            let mut w = NdjsonWriter::new(&a(4));
+            replay::source(&a(2), &text, &mut w, &mut out);
+            w.finish();
+        }
+        "replay-call" => {
+            let case: serde_json::Value = serde_json::from_str(&std::fs::read_to_string(a(2)).expect("read")).expect("json");
+            replay::call(&case, &mut out);
         }
         _ => usage(),
     }
